@@ -1,5 +1,5 @@
 (* C32 — scope provider selection follows the documented precedence. Statements only. *)
-From TxV Require Import Core.Base Model.ScopeDefs Gen.SrcScope Model.Scope Proofs.ScopeProofs.
+From TxV Require Import Core.Base Model.ScopeDefs Gen.SrcScope Model.RrelSyntax Proofs.RrelSyntaxProofs Model.Scope Proofs.ScopeProofs.
 
 (* For every set of registered keys, every rule/attribute name and with or without a
    grammar RREL, the provider selected by the (translated) selection statement is the
@@ -13,14 +13,34 @@ Theorem C32_grammar_rrel_wins : forall regs cls attr, select regs cls attr true 
 Proof. exact select_grammar_first. Qed.
 Print Assumptions C32_grammar_rrel_wins.
 
-(* A registered RREL string denotes the provider built from the parsed expression, i.e.
-   the provider the same expression yields when written in the grammar. *)
-Theorem C32_rrel_string : forall parse t,
-  registered_provider parse (RString t) = grammar_provider (parse t).
+(* A whole resolution pass over any sequence of references (rule, attribute, has a grammar RREL): each one
+   gets the provider documented for its own rule and attribute - the selection made for one reference has
+   no influence on a later one (no memo by attribute name, by rule, ...). *)
+Theorem C32_per_reference : forall regs refs,
+  select_pass regs refs [] = map (fun r => spec regs (fst (fst r)) (snd (fst r)) (snd r)) refs.
+Proof. intros regs refs. exact (select_pass_spec regs refs []). Qed.
+Print Assumptions C32_per_reference.
+
+(* A registered RREL string denotes the provider built from the parsed expression (the parser of
+   Model/RrelSyntax.v, property C12), i.e. the provider the same expression yields when written in the grammar. *)
+Theorem C32_rrel_string : forall t e,
+  RrelSyntax.parse t = Some e -> registered_provider (RString t) = grammar_provider e.
 Proof. exact registered_string_like_grammar. Qed.
 Print Assumptions C32_rrel_string.
+
+(* ... in particular every string that lexes to the tokens of a well-formed expression (C12 round trip) *)
+Theorem C32_rrel_string_printed : forall t e,
+  wf_expr e -> lex (S (length t)) t = Some (t_expr e) -> registered_provider (RString t) = grammar_provider e.
+Proof. exact registered_string_of_tokens. Qed.
+Print Assumptions C32_rrel_string_printed.
 
 Example C32_nonvacuous :
   select [[42;46;42]; [65;46;42]]%N [65]%N [98]%N false = Registered [65;46;42]%N.
 Proof. exact select_example. Qed.
 Print Assumptions C32_nonvacuous.
+
+(* two rules referring through the same attribute name: the key of the first does not leak to the second *)
+Example C32_nonvacuous_pass :
+  select_pass [[65;46;98]]%N [([65]%N, [98]%N, false); ([66]%N, [98]%N, false)] [] = [Registered [65;46;98]%N; Default].
+Proof. vm_compute. reflexivity. Qed.
+Print Assumptions C32_nonvacuous_pass.
